@@ -248,9 +248,9 @@ class Array(Base):
             return 1.0 * arg.unit
         if hasattr(arg, "units"):
             return 1.0 * arg.units
-        if isinstance(arg, np.ndarray) and arg.ndim == 0:
-            # a 0-d array is a plain number for the unit computation
-            return arg[()]
+        if isinstance(arg, np.ndarray) and arg.size == 1:
+            # an array holding one number is that number for the unit computation
+            return arg.reshape(())[()]
         return arg
 
     def _extract_units(self, args):
